@@ -24,37 +24,36 @@ namespace Gql.Format
 open Gql
 
 /- ------------------------------------------------------------------------------------------
-   LEGACY QUIRKS (DESIGN §7).  Each is one definition; the repaired behaviour is in the comment.
+   Definitions that changed with the repairs of /repo (DESIGN §7 R12a, R12b, R13a–R13d).
    ------------------------------------------------------------------------------------------ -/
-section Legacy
+section Repaired
 
-/-- R12a: `Value.String()` quotes with `strconv.Quote`.  Repaired: `gqlQuote bs`. -/
-def quoteString (bs : Bytes) : Bytes := goQuote bs
+/-- `Value.String()` quotes string values with the GraphQL escapes only (repair of R12a). -/
+def quoteString (bs : Bytes) : Bytes := gqlQuote bs
 
-/-- R12b: `FormatVariableDefinition` does not print the directives.  Repaired: `true`. -/
-def varDefDirectivesPrinted : Bool := false
+/-- `FormatFieldDefinition` hides the introspection fields the loader appends to the query type:
+    name starting with `__` AND no source position (`Position == nil` travels as line 0; every
+    parsed node has line ≥ 1) — repair of R13d. -/
+def fieldSuppressed (emitBuiltin : Bool) (name : Bytes) (pos : Pos) : Bool :=
+  !emitBuiltin && pos.line == 0 && (match name with | 95 :: 95 :: _ => true | _ => false)
 
-/-- R13d: `FormatFieldDefinition` drops every field whose name starts with `__` unless
-    `emitBuiltin`.  Repaired: drop only `__schema` / `__type` (or nothing for parsed documents). -/
-def fieldSuppressed (emitBuiltin : Bool) (name : Bytes) : Bool :=
-  !emitBuiltin && (match name with | 95 :: 95 :: _ => true | _ => false)
-
-/-- R13c: `FormatSchema` opens the `schema { … }` block for a root only when the root type's name
-    differs from the default name.  Repaired: also when a type with a default root name exists
-    that is not the corresponding root (needs the schema: change the call site `rootNeedsBlock`). -/
-def rootNeedsBlock (root : Option Name) (dflt : Bytes) : Bool :=
+/-- `isDefaultRoot` of `FormatSchema`: would loading without a schema definition give this root? -/
+def isDefaultRoot (s : Schema) (root : Option Name) (dflt : Bytes) : Bool :=
   match root with
-  | some n => n != dflt
-  | none => false
+  | some n => n == dflt
+  | none => (s.type? dflt).isNone
 
-/-- R13e: `FormatSchema` never prints `Schema.Description`.  Repaired: `true` (and the block must
-    then be opened whenever the description is non-empty). -/
+/-- `needSchema` of `FormatSchema` (repair of R13c and of the dropped default-named roots) -/
+def needSchema (s : Schema) : Bool :=
+  (!isDefaultRoot s s.query (str "Query") || !isDefaultRoot s s.mutation (str "Mutation") ||
+    !isDefaultRoot s s.subscription (str "Subscription")) &&
+  !(s.query.isNone && s.mutation.isNone && s.subscription.isNone)
+
+/-- KNOWN FINDING R13e (pinned by the formatter's golden files): `FormatSchema` never prints
+    `Schema.Description`. -/
 def schemaDescriptionPrinted : Bool := false
 
-/- R13a / R13b live in `writeDescription` below (marked there): the description is written raw,
-   line by line, inside a block string — no escaping of `"""`, no fallback to a quoted string. -/
-
-end Legacy
+end Repaired
 
 structure Cfg where
   indent : Bytes := [9]
@@ -114,14 +113,30 @@ def needPadding (w : W) : W := { w with padNext := true }
 
 def tripleQuote : Bytes := [34, 34, 34]
 
-/-- `WriteDescription`.  LEGACY R13a/R13b: the lines are written raw.  A repair escapes `"""`
-    and falls back to `writeStr cfg (gqlQuote s)` when the block form cannot represent `s`
-    (see `GqlProofs/Format/Description.lean` for the exact class). -/
+/-- `strings.ReplaceAll(s, "\"\"\"", "\\\"\"\"")` -/
+def escapeTriple : Bytes → Bytes
+  | 34 :: 34 :: 34 :: rest => 92 :: 34 :: 34 :: 34 :: escapeTriple rest
+  | b :: rest => b :: escapeTriple rest
+  | [] => []
+
+def isBlankLine (l : Bytes) : Bool := l.all fun b => b == 32 || b == 9
+
+/-- `blockStringRepresentable`: no control character except TAB and LF, first and last line not
+    blank, and some non-blank line without indentation. -/
+def blockStringRepresentable (s : Bytes) : Bool :=
+  let lines := Lexer.splitLines s
+  s.all (fun c => !(c < 32 && c != 9 && c != 10)) &&
+  !isBlankLine (lines.headD []) && !isBlankLine (lines.getLastD []) &&
+  lines.any fun l => !isBlankLine l && (match l with | b :: _ => b != 32 && b != 9 | [] => false)
+
+/-- `WriteDescription`: a block string with `"""` escaped, or a quoted string when a block string
+    would not read back as `s` (repair of R13a / R13b). -/
 def writeDescription (cfg : Cfg) (s : Bytes) (w : W) : W :=
   if s.isEmpty || cfg.omitDescription then w
+  else if !blockStringRepresentable s then writeNewline (writeStr cfg (quoteString s) w)
   else
     let w := writeNewline (writeStr cfg tripleQuote w)
-    let w := (Lexer.splitLines s).foldl (fun w l => writeNewline (writeStr cfg l w)) w
+    let w := (Lexer.splitLines (escapeTriple s)).foldl (fun w l => writeNewline (writeStr cfg l w)) w
     writeNewline (writeStr cfg tripleQuote w)
 
 /- ---------------- `Value.String()` ---------------- -/
@@ -194,7 +209,7 @@ def formatVariableDefinition (cfg : Cfg) (d : VarDef) (w : W) : W :=
   let w := match d.default with
     | some v => w |> writeWord cfg [61] |> formatValue cfg v
     | none => w
-  if varDefDirectivesPrinted then formatDirectiveList cfg d.dirs w else w
+  w |> needPadding |> formatDirectiveList cfg d.dirs
 
 def formatVariableDefinitions (cfg : Cfg) : List VarDef → W → W
   | [], w => w
@@ -295,7 +310,7 @@ def formatArgumentDefinitionList (cfg : Cfg) (ds : List ArgDef) (w : W) : W :=
 
 /-- `FormatFieldDefinition` -/
 def formatFieldDefinition (cfg : Cfg) (f : FieldDef) (w : W) : W :=
-  if fieldSuppressed cfg.emitBuiltin f.name then w
+  if fieldSuppressed cfg.emitBuiltin f.name f.pos then w
   else
     let w := w |> writeDescription cfg f.desc |> writeWord cfg f.name |> noPadding
       |> formatArgumentDefinitionList cfg f.args |> noPadding |> writeStr cfg [58] |> needPadding
@@ -413,8 +428,8 @@ def sortedByKey {α} (m : List (Name × α)) : List α :=
   (m.mergeSort fun a b => bytesLe a.1 b.1).map (·.2)
 
 /-- one root operation line of the schema block; `startSchema()` opens the block on first use -/
-def formatRoot (cfg : Cfg) (s : Schema) (kw dflt : Bytes) (root : Option Name) (st : W × Bool) : W × Bool :=
-  if rootNeedsBlock root dflt then
+def formatRoot (cfg : Cfg) (s : Schema) (kw : Bytes) (root : Option Name) (st : W × Bool) : W × Bool :=
+  if root.isSome && needSchema s then
     let (w, inSchema) := st
     let w := if inSchema then w
       else w |> writeWord cfg (str "schema") |> formatDirectiveList cfg s.schemaDirectives
@@ -428,9 +443,9 @@ def formatRoot (cfg : Cfg) (s : Schema) (kw dflt : Bytes) (root : Option Name) (
 def formatSchema (cfg : Cfg) (s : Schema) (w : W) (srcBuiltIn : Nat → Bool := srcZeroBuiltIn) : W :=
   let w := if schemaDescriptionPrinted then writeDescription cfg s.description w else w
   let st := (w, false)
-    |> formatRoot cfg s (str "query") (str "Query") s.query
-    |> formatRoot cfg s (str "mutation") (str "Mutation") s.mutation
-    |> formatRoot cfg s (str "subscription") (str "Subscription") s.subscription
+    |> formatRoot cfg s (str "query") s.query
+    |> formatRoot cfg s (str "mutation") s.mutation
+    |> formatRoot cfg s (str "subscription") s.subscription
   let w := st.1
   let w := if st.2 then w |> decIndent |> writeStr cfg [125] |> writeNewline
     else if !s.schemaDirectives.isEmpty then
